@@ -32,15 +32,15 @@ Note(code) == TLCSet(3, TLCGet(3) \cup {<<tid, code>>})
 Stage(k) ==
     CASE k = 1 -> Rec.written
       [] k = 2 -> /\ FoldOfLines.ok
-                  /\ \/ Same(FoldOfLines, Built)
-                     \/ (KnownMassOnly /\ HasMassOnly(Built) /\ Same(FoldOfLines, Shifted(Built)) /\ Note("mass-without-charge"))
+                  /\ IF Same(FoldOfLines, Built) THEN TRUE
+                     ELSE (KnownMassOnly /\ HasMassOnly(Built) /\ Same(FoldOfLines, Shifted(Built)) /\ Note("mass-without-charge"))
       [] k = 3 -> Same(Rec.read, FoldOfLines)
       [] k = 4 -> Same(Rec.read2, Rec.read)
       [] OTHER -> (Len(Rec.missing) = 0 =>
                       /\ GraphOf(Rec.rg) = ReadResGraph(FoldOfLines) /\ GraphOf(Rec.rg2) = GraphOf(Rec.rg)
-                      /\ \/ GraphOf(Rec.rg) = GraphOf(Rec.req)
-                         \/ ( /\ KnownUnbacked /\ GraphOf(Rec.rg).nodes = GraphOf(Rec.req).nodes
-                              /\ GraphOf(Rec.rg).edges \subseteq GraphOf(Rec.req).edges /\ Note("residue-edge-without-bond")))
+                      /\ IF GraphOf(Rec.rg) = GraphOf(Rec.req) THEN TRUE
+                         ELSE ( /\ KnownUnbacked /\ GraphOf(Rec.rg).nodes = GraphOf(Rec.req).nodes
+                                /\ GraphOf(Rec.rg).edges \subseteq GraphOf(Rec.req).edges /\ Note("residue-edge-without-bond")))
 Frozen == /\ mol = 0 /\ pc = "trace" /\ out = <<>> /\ secs = {} /\ cur = "" /\ groups = <<>> /\ pend = <<>> /\ gopen = NoGuard
           /\ late = FALSE /\ rd = R0 /\ ri = 1
 TInit == Frozen /\ tid \in 1..Len(Recs) /\ l = 1
